@@ -357,6 +357,12 @@ impl SendSide {
                             Poll::Ready(Some(Ok(n))) => api.ev("poll_capacity", sid, tag, "ok", json!({"v": n})),
                             Poll::Ready(Some(Err(e))) => api.ev("poll_capacity", sid, tag, "err", json!({"e": err_json(&e)})),
                         },
+                        SendOp::PollCapOnce => match st.poll_capacity(cx) {
+                            Poll::Pending => api.ev("poll_capacity", sid, tag, "pending", json!({})),
+                            Poll::Ready(None) => api.ev("poll_capacity", sid, tag, "none", json!({})),
+                            Poll::Ready(Some(Ok(n))) => api.ev("poll_capacity", sid, tag, "ok", json!({"v": n})),
+                            Poll::Ready(Some(Err(e))) => api.ev("poll_capacity", sid, tag, "err", json!({"e": err_json(&e)})),
+                        },
                         SendOp::Data { n, eos } => {
                             let b = body(tag, self.sent, n);
                             match st.send_data(b, eos) {
